@@ -1,6 +1,6 @@
 import CSSVerif.ClassDBHist
 /-! Driver for C15. Lines: `reset e1,e2,..` (ids of the empty classes; `-` for none), `L x` get_label,
-`G l` get_class, `CC x` class in db, `CL l` label in db, `E x` is_empty, `S x b` set_empty. -/
+`A x` add (get_label with the answer dropped), `G l` get_class, `CC x` class in db, `CL l` label in db, `E x` is_empty, `S x b` set_empty. -/
 def showOut : COut → String
   | .label l => s!"label {l}"
   | .cls x => s!"class {x}"
@@ -21,6 +21,13 @@ partial def loop (h : IO.FS.Stream) (em : List Nat) (d : CDBS) : IO Unit := do
       | some em' => IO.println "ok"; loop h em' CDBS.init
       | none => IO.println "bad-op"; loop h em d
     | ["L", x] => match x.toNat? with | some x => go (.getLabel x) | none => IO.println "bad-op"; loop h em d
+    | ["A", x] =>
+      match x.toNat? with
+      | some x =>
+        let (d', _) := CDBS.step tr d (.getLabel x)
+        IO.println s!"ok | n={d'.db.classes.length}"
+        loop h em d'
+      | none => IO.println "bad-op"; loop h em d
     | ["G", l] => match l.toInt? with | some l => go (.getClass l) | none => IO.println "bad-op"; loop h em d
     | ["CC", x] => match x.toNat? with | some x => go (.containsC x) | none => IO.println "bad-op"; loop h em d
     | ["CL", l] => match l.toInt? with | some l => go (.containsL l) | none => IO.println "bad-op"; loop h em d
